@@ -3,7 +3,8 @@
 whose meta.json names <ID>) to a scratch copy of /repo outside both trees, run the quick check against it and expect a
 VIOLATION.  The scratch copy and its build output are removed afterwards.
 
-usage: tools/mutants.py <ID> [patch-name-substring] [--tier quick|thorough] [--keep]
+usage: tools/mutants.py <ID> [patch-name-substring] [--tier quick|thorough] [--keep] [--patch <file>]...
+       (--patch: run the check against exactly these patch files instead of the registered ones)
 """
 import glob
 import json
@@ -21,7 +22,15 @@ def sh(cmd, **kw):
 
 
 def main():
-    args = [a for a in sys.argv[1:] if not a.startswith("--")]
+    extra = []
+    argv = sys.argv[1:]
+    while "--patch" in argv:
+        i = argv.index("--patch")
+        extra.append(os.path.abspath(argv[i + 1]))
+        del argv[i:i + 2]
+    if "--tier" in argv:
+        del argv[argv.index("--tier") + 1]
+    args = [a for a in argv if not a.startswith("--")]
     pid = args[0].upper()
     sub = args[1] if len(args) > 1 else ""
     tier = "quick"
@@ -41,6 +50,8 @@ def main():
         if pid in props:
             patches.append(os.path.join(os.path.dirname(meta), "patch.diff"))
     patches = [p for p in patches if sub in p]
+    if extra:
+        patches = extra
     results = []
     try:
         sh(["git", "clone", "-q", "/repo", repo])
